@@ -218,7 +218,7 @@ fn e3(ctx: &Ctx, res: &mut PartResult, which: &str) {
         let canon: Vec<Option<(String, Vec<(String, String)>)>> = uni.iter().map(|a| if distinct_names(a) { let mut l = a.1.clone(); l.sort(); Some((a.0.clone(), l)) } else { None }).collect();
         for (x, (i, a)) in reps.iter().enumerate() {
             if x % 64 == 0 && ctx.over_budget() {
-                res.cap_hit = Some("wall budget".into());
+                res.cap_hit = Some("budget (cpu time of the part)".into());
                 res.exhaustive = false;
                 break;
             }
@@ -273,7 +273,7 @@ fn e3(ctx: &Ctx, res: &mut PartResult, which: &str) {
         }
         'outer: for x in 0..n {
             if ctx.over_budget() {
-                res.cap_hit = Some("wall budget".into());
+                res.cap_hit = Some("budget (cpu time of the part)".into());
                 res.exhaustive = false;
                 break;
             }
